@@ -71,6 +71,7 @@ type Contracts struct {
 	gspec       *GuardSpec
 	Kinds       *KindSpec
 	Atomic      map[string]bool
+	CloseOnly   map[string]bool // Struct.field channels on which nothing is ever sent: a receive succeeds only once the channel is closed
 	Immutable   map[string]bool
 	Consts      map[string]*CExpr
 	Monitors    map[string]*Clause // "Struct.mutexField" -> invariant over self
@@ -100,13 +101,13 @@ type ConfinedDecl struct {
 var topKeywords = map[string]bool{
 	"confined": true, "shared": true, "owned": true, "kind": true, "kindfunc": true, "kindok": true,
 	"func": true, "pred": true, "spec": true, "lemma": true, "callback": true, "ghost": true,
-	"guard": true, "atomic": true, "immutable": true, "const": true, "end": true, "axiom": true,
+	"guard": true, "atomic": true, "closeonly": true, "immutable": true, "const": true, "end": true, "axiom": true,
 	"monitor": true, "constructor": true,
 }
 
 func newContracts() *Contracts {
 	return &Contracts{Funcs: map[string]*FuncContract{}, Specs: map[string]*SpecDef{}, Callbacks: map[string]*FuncContract{},
-		Guards: map[string][]string{}, Atomic: map[string]bool{}, Immutable: map[string]bool{}, Consts: map[string]*CExpr{},
+		Guards: map[string][]string{}, Atomic: map[string]bool{}, CloseOnly: map[string]bool{}, Immutable: map[string]bool{}, Consts: map[string]*CExpr{},
 		Monitors: map[string]*Clause{}, Ctors: map[string]bool{}}
 }
 
@@ -277,6 +278,11 @@ func loadContractsInto(c *Contracts, path string) (*Contracts, error) {
 		case "atomic":
 			for _, f := range strings.Fields(rest) {
 				c.Atomic[f] = true
+			}
+			cur = nil
+		case "closeonly":
+			for _, f := range strings.Fields(rest) {
+				c.CloseOnly[f] = true
 			}
 			cur = nil
 		case "confined":
